@@ -122,8 +122,26 @@ def run(ctx) -> list[Inst]:
         if isinstance(n, ast.Call) and isinstance(n.func, ast.Attribute) and not n.args and n.func.attr == 'mal' \
                 and isinstance(n.func.value, ast.Name) and n.func.value.id == parser_var:
             parse_node = cfg.owner(n)
+    # (a10) lexer and parser are per FILE: compile() is re-entered for every include while the including file's tree is
+    # still being visited, and the visitor reads tokens through ctx.parser.getTokenStream().  A recogniser kept in a
+    # field of the compiler and re-pointed at the next file pulls the token stream from under the outer visit
+    for m_ in cls.methods.values():
+        for n in own_nodes(m_.node):
+            if isinstance(n, ast.Assign) and isinstance(n.targets[0], ast.Attribute) and isinstance(n.targets[0].value, ast.Name) \
+                    and n.targets[0].value.id == (m_.params[0] if m_.params else 'self') and isinstance(n.value, ast.Call) \
+                    and isinstance(n.value.func, ast.Name) and n.value.func.id in ('malParser', 'malLexer', 'CommonTokenStream'):
+                insts.append(Inst(
+                    RULE, m_.short, '(a) lexer / parser / token stream are built per file, not kept on the compiler', 'violation',
+                    msg=(f"'{stmt_text(n, 70)}' keeps the {n.value.func.id} on the compiler object: an include compiled in the "
+                         f"middle of the including file's visit re-points it, and what is left of the including file is "
+                         f"classified against the tokens of the included one (or fails with an IndexError)"),
+                    file=rel, line=n.lineno, props=props + ('C04',)))
     if parser_var is None or parse_node is None:
-        raise AnalysisError(f'{f.short}: start-rule invocation <parser>.mal() not found')
+        insts.append(Inst(RULE, compile_f.short, '(a) syntax errors make compile() fail', 'unproven',
+                          msg=f'{f.short}: the start rule is not invoked on a parser built in the same function',
+                          file=rel, line=f.node.lineno, props=props))
+        insts += _lookups(ctx)
+        return insts
     idiom = None
     detail = ''
     weak = None        # (class, method): the installed listener's syntaxError can return normally
@@ -373,6 +391,22 @@ def run(ctx) -> list[Inst]:
                         and cfg.dominates(parse_node, x)]
                 if lab and all(cfg.dominates(g, r) for r in rets):
                     tested = True
+                    # ... and it is the NEXT token that is tested: LT(1) / LA(1) (LT(2) skips one stray token)
+                    look = []
+                    srcs = [g.ast.test] + [d.ast.value for nm in [x.id for x in ast.walk(g.ast.test) if isinstance(x, ast.Name)]
+                                            for d in cfg.reaching(g, nm) if d.kind == 'stmt' and isinstance(d.ast, ast.Assign)]
+                    for src in srcs:
+                        for x in ast.walk(src):
+                            if isinstance(x, ast.Call) and isinstance(x.func, ast.Attribute) and x.func.attr in ('LT', 'LA') \
+                                    and x.args and isinstance(x.args[0], ast.Constant):
+                                look.append(x)
+                    wrong = [x for x in look if x.args[0].value != 1]
+                    if wrong:
+                        insts.append(Inst(
+                            RULE, f.short, '(a) the end-of-input test looks at the next token', 'violation',
+                            msg=(f"'{stmt_text(wrong[0])}' is the token AFTER the next one: a file with exactly one stray token "
+                                 f"behind the last declaration (an extra '}}') passes the test and compiles"),
+                            file=rel, line=wrong[0].lineno, props=props))
         if rule_eof:
             insts.append(Inst(RULE, f.short, construct8, 'ok', msg=f'every one of the {len(alts)} alternatives of mal matches EOF',
                               file=rel, line=parse_node.lineno, props=props))
